@@ -96,6 +96,25 @@ type C struct {
 
 func (c *C) Only() (interface{}, error) { return c.B.ReflResolve(c.ID, "only", nil) }
 
+// XA, XB and XC are Go types whose names differ from the GraphQL type names (no binding by name):
+// they are bound by Root.RegisterType only, possibly AFTER requests have met them unbound.
+type XA struct{ A }
+type XB struct{ B }
+type XC struct{ C }
+
+// NewAlt is New with the differently named Go types for A, B and C.
+func NewAlt(b Backend, typeName, id string) interface{} {
+	switch typeName {
+	case "A":
+		return &XA{A{B: b, ID: id}}
+	case "B":
+		return &XB{B{B: b, ID: id}}
+	case "C":
+		return &XC{C{B: b, ID: id}}
+	}
+	return New(b, typeName, id)
+}
+
 // New returns the Go object for a node of the given GraphQL type.
 func New(b Backend, typeName, id string) interface{} {
 	switch typeName {
